@@ -433,9 +433,23 @@ func init() {
 				c.Events = []ev.Event{first}
 				for i, n := 0, rapid.IntRange(1, 3).Draw(t, "nmore"); i < n; i++ {
 					if rapid.Bool().Draw(t, "samekind") {
-						// another value of the same event kind and magnitude class (neighbouring values)
-						e2 := genNumericEvent(t)
-						for tries := 0; e2.K != first.K && tries < 8; tries++ {
+						// a neighbour of the first value: same event kind, same magnitude class
+						e2 := first
+						d := uint64(rapid.IntRange(1, 9).Draw(t, "delta"))
+						switch first.K {
+						case ev.Int:
+							if first.I > math.MinInt64+10 {
+								e2.I = first.I - int64(d)
+							}
+						case ev.PInt, ev.NInt:
+							if first.U > 10 {
+								e2.U = first.U - d
+							}
+						case ev.BigInt:
+							if first.Big != nil {
+								e2.Big = new(big.Int).Sub(first.Big, new(big.Int).SetUint64(d))
+							}
+						default:
 							e2 = genNumericEvent(t)
 						}
 						c.Events = append(c.Events, e2)
